@@ -23,7 +23,7 @@ import (
 )
 
 type c13Stmt struct {
-	kind string // w r R xf pf e q Q qf p sp sa sq b c rb
+	kind string // w r R xf pf e q Q qf p ar sp sa sq b c rb
 	tok  int
 }
 
@@ -38,7 +38,7 @@ func (s c13Stmt) token() string {
 func (s c13Stmt) isWrite() bool { return s.kind == "w" || s.kind == "r" || s.kind == "R" }
 func (s c13Stmt) isCtl() bool   { return s.kind == "b" || s.kind == "c" || s.kind == "rb" }
 func (s c13Stmt) fails() bool {
-	return s.kind == "xf" || s.kind == "pf" || s.kind == "qf" || s.kind == "p" || s.kind == "sp" || s.kind == "sa" || s.kind == "sq"
+	return s.kind == "xf" || s.kind == "pf" || s.kind == "qf" || s.kind == "p" || s.kind == "sp" || s.kind == "sa" || s.kind == "sq" || s.kind == "ar"
 }
 
 type c13Req struct {
@@ -125,6 +125,13 @@ func c13SQL(s c13Stmt, v int) *command.Statement {
 		default:
 			return &command.Statement{Sql: fmt.Sprintf("INSERT INTO t(tok) VALUES(%d);\nINSERT INTO u(k) VALUES(0); INSERT INTO t(tok) VALUES(999999)", s.tok)}
 		}
+	case "ar":
+		// fails and makes SQLite roll the open transaction back by itself
+		return &command.Statement{Sql: []string{
+			"INSERT OR ROLLBACK INTO t(tok) VALUES(NULL)",
+			"INSERT OR ROLLBACK INTO u(k) VALUES(0)",
+			"INSERT INTO g(x) VALUES(1)", // BEFORE INSERT trigger: RAISE(ROLLBACK, …)
+			"INSERT OR ROLLBACK INTO t(tok) VALUES(888888),(NULL)"}[v%4]}
 	case "sp":
 		// a RETURNING statement marked as a query which does not even prepare
 		return &command.Statement{ForceQuery: true, Sql: []string{
@@ -246,6 +253,8 @@ func c13NewDB() (*DB, func()) {
 	mustExecute(d, "CREATE TABLE t (id INTEGER PRIMARY KEY, tok INTEGER NOT NULL CHECK(tok >= 0))")
 	mustExecute(d, "CREATE TABLE u (k INTEGER UNIQUE)")
 	mustExecute(d, "INSERT INTO u(k) VALUES(0)")
+	mustExecute(d, "CREATE TABLE g (x)")
+	mustExecute(d, "CREATE TRIGGER gtr BEFORE INSERT ON g BEGIN SELECT RAISE(ROLLBACK, 'refused'); END")
 	return d, func() {
 		d.Close()
 		os.Remove(path)
@@ -491,8 +500,10 @@ func c13GenStmts(r *vfRng, n int, allowCtl bool, nextTok *int) []c13Stmt {
 		case p < 50:
 			*nextTok++
 			s = c13Stmt{kind: []string{"r", "R"}[r.Intn(2)], tok: *nextTok}
-		case p < 53:
+		case p < 51:
 			s = c13Stmt{kind: "xf"}
+		case p < 53:
+			s = c13Stmt{kind: "ar"}
 		case p < 56:
 			s = c13Stmt{kind: []string{"sp", "sa", "sq"}[r.Intn(3)]}
 		case p < 60:
@@ -602,7 +613,7 @@ func c13RunCase(ops []string, rep *vfReport) []string {
 }
 
 func TestVerifC13(t *testing.T) {
-	rep := vfNewReport("C13", "generated cases: fresh WAL database, 1-3 requests of 1-8 statements (writes, RETURNING with/without ForceQuery, constraint failures incl. a multi-row statement failing on its last row, statements that are not atomic on their own - several commands in one text, INSERT OR FAIL - failing part-way, statements run through the query helper whose query fails to start (missing table/column, too few positional/named parameters), prepare failures, empty, queries, failing query, BEGIN/COMMIT/ROLLBACK) × Transaction on/off × RollbackOnError on/off × db.Execute / db.Request; a request is non-trivial when it has ≥2 statements one of which fails; distinct by abstract request line")
+	rep := vfNewReport("C13", "generated cases: fresh WAL database, 1-3 requests of 1-8 statements (writes, RETURNING with/without ForceQuery, constraint failures incl. a multi-row statement failing on its last row, statements that are not atomic on their own - several commands in one text, INSERT OR FAIL - failing part-way, statements that make SQLite roll the transaction back by itself (INSERT OR ROLLBACK, RAISE(ROLLBACK) in a trigger), statements run through the query helper whose query fails to start (missing table/column, too few positional/named parameters), prepare failures, empty, queries, failing query, BEGIN/COMMIT/ROLLBACK) × Transaction on/off × RollbackOnError on/off × db.Execute / db.Request; a request is non-trivial when it has ≥2 statements one of which fails; distinct by abstract request line")
 	defer rep.Write()
 
 	if ops, ok := vfReplayOps(); ok {
@@ -622,6 +633,9 @@ func TestVerifC13(t *testing.T) {
 		// a transaction holding exactly one statement which is not atomic on its own
 		{"reset", "req exec 1 0 p1"}, {"reset", "req request 1 0 p1"}, {"reset", "req exec 1 1 p1", "req request 1 0 p2", "req exec 0 0 p3,w4"},
 		{"reset", "req exec 1 0 w1,p2,w3"}, {"reset", "req request 0 1 b,w1,p2,c"},
+		// a statement that makes SQLite roll the transaction back by itself
+		{"reset", "req exec 1 0 w1,ar,w2"}, {"reset", "req request 1 0 w1,ar,w2"}, {"reset", "req exec 0 0 b,w1,ar,w2,c"},
+		{"reset", "req request 0 1 b,w1,ar,w2,c"}, {"reset", "req exec 0 0 w1,ar,w2"}, {"reset", "req exec 1 1 w1,w2,ar"},
 		// a statement run through the query helper whose query fails to start
 		{"reset", "req exec 1 0 w1,sp,w2"}, {"reset", "req exec 1 0 w1,sa,w2"}, {"reset", "req request 1 0 w1,sa,w2"},
 		{"reset", "req request 1 0 w1,sq,w2"}, {"reset", "req exec 1 0 w1,sq,w2"}, {"reset", "req request 1 0 w1,sp,w2"},
